@@ -91,7 +91,7 @@ def check_valid(assumptions, goal, lemmas=(), timeout_ms=None, want_model=True, 
     neg = z3.Not(goal)
     base = list(assumptions) + [neg]
     lem = [defs.forall_uf(*l) for _, l in lemmas]
-    cvc5_budget = 60 if thorough else 30
+    cvc5_budget = 60 if thorough else 25
 
     def build(fuel):
         insts = defs.instances(base, fuel)
@@ -273,16 +273,23 @@ def verify_contract(modname, key, tier="quick", shard=0, nshards=1):
         out["status"] = "vacuous"
         out["reason"] = "no obligations generated"
     out["n_generated"] = len(ctx.obligs)
+    n_unknown = 0
     for oi, o in enumerate(ctx.obligs):
         if oi % nshards != shard:
             continue
-        r = check_valid(o.assumptions, o.goal, lemmas, thorough=(tier == "thorough"))
-        if r["status"] == "unknown":
+        if n_unknown >= 3:
+            # the proof of this function is lost anyway (bounded layers decide): do not spend the full budget on the rest
+            r = check_valid(o.assumptions, o.goal, lemmas, fuel_timeout_ms=4000, timeout_ms=8000, refute=False, max_fuel=2)
+        else:
+            r = check_valid(o.assumptions, o.goal, lemmas, thorough=(tier == "thorough"))
+        if r["status"] == "unknown" and n_unknown < 2:
             # one retry with larger budgets: a verdict must not flip because the machine is busy
-            r2 = check_valid(o.assumptions, o.goal, lemmas, thorough=True, fuel_timeout_ms=45000, timeout_ms=60000)
+            r2 = check_valid(o.assumptions, o.goal, lemmas, thorough=True, fuel_timeout_ms=30000, timeout_ms=40000, refute=False)
             r2["time_s"] += r["time_s"]
             r2["retried"] = True
             r = r2
+        if r["status"] != "proved":
+            n_unknown += 1
         rec = dict(fuel=r.get("fuel"), name=o.name, kind=o.kind, line=o.line, note=o.note, status=r["status"], time_s=round(r["time_s"], 4),
                    backend=r["backend"], contract=o.is_contract)
         if r["status"] == "refuted":
